@@ -98,6 +98,12 @@ CHECKS = {
         note="Arcs through d() are compared at six significant digits x eccentricity (KF-ARC-D-6DIGITS, C07); round shapes' own transformed decomposition under non-conformal matrices is KF-ROUNDSHAPE-TRANSFORMED; lengths of curved shapes are left to C15.",
         ref="5/C06",
     ),
+    "C07": dict(
+        technique="property-based testing: round trip Path(p.d(relative, smooth)) over generated and parsed paths with a two-sided arc oracle (written tokens / pointwise fidelity)",
+        text="Programmatic paths (1..3 subpaths, closes, subpaths after a close without a move, all segment kinds, smooth-eligible pairs and decoys, near-coincident points, arcs incl. scaled-up and near-half-turn) and parsed paths carrying as-parsed relative/smooth flags, x relative in {None, False, True} x smooth in {None, False, True}, through d(), str() and Subpath.d(): the text must be grammar-conforming (reference interpreter), re-parse to the same kinds, lines/Beziers within (n+1) x 1e-11 x scale pointwise and on their control points; arcs: written radii/rotation/flags/end must be the arc's own, and the re-parsed points within the conditioning-aware 12-digit bound. Exploration.",
+        note="An arc deviation beyond the 12-digit bound but inside the six-digit envelope is the known finding KF-ARC-D-6DIGITS (pinned by test_svg_example14). Leading fragments without a move and subpath views without a move of their own cannot carry their start point in d(): counted as not applicable.",
+        ref="5/C07",
+    ),
 }
 
 REASON_PENDING = "no check registered yet in this build; the design (DESIGN.md section 5) covers it with property-based testing"
